@@ -54,6 +54,9 @@ CHECKS = {
  "C14": ("fault_enumeration", "crash-state enumeration from a recorded syscall log (strace) + real kill injection to validate the model",
          "The real cache write is traced with strace; from the log (whatever the write procedure is) every process-kill state (syscall boundaries and byte cuts inside each write) and power-loss state (prefixes of un-fsynced data, non-durable truncation, rename durable before its data) is materialised, with an earlier run's cache content and, in half the scenarios, debris of an earlier interrupted write present; a fresh RateLoader answers look-ups over each state and every returned rate must be the published one for the right day (wrong-day answers that the uncrashed cache gives too are not attributed to the crash). Real SIGKILLs injected at each write syscall must land in a modelled state. thorough enumerates every byte offset.",
          "Ordered-prefix persistence inside one file; one traced run is representative of the deterministic write procedure.", "C14"),
+ "C20": ("exploration", "reference-model runtime monitor over generated statements + page-visit monitor on real lopdf-written PDFs",
+         "Generated allocation tables in the documented layout are parsed by the real state machine and compared with the generating spec (each holding once, allocation, value, total, month). Real multi-page PDFs whose pages carry unique tokens are iterated through safe_page_chunks_with_remainder + optimized_iter in sequential and task-parallel mode under exhaustively enumerated single-group hints and random multi-group hints; every page must be yielded, no other page requested, each text must carry its own token; the pure chunk helper is also driven for page counts up to 400.",
+         "PDF byte parsing is third-party; the allocation-table marker cannot be drawn with a Type1 font, so PDF-borne statements use tables without holdings.", "C20"),
 }
 PENDING = {}
 
